@@ -5,7 +5,7 @@ symbolically (straight-line `return` of an expression; `all`/`any`/comprehension
 therefore both the symbolic definition used in proofs and the executable oracle used by bounded checks and replay.
 """
 # ruff: noqa
-from contracts.specrt import is_deepcopy, same_keys, forall_keys, is_new
+from contracts.specrt import is_deepcopy, same_keys, forall_keys, is_new, reaches
 
 
 def avail(graph, state, node, param):
@@ -214,3 +214,8 @@ def gates_wellformed(graph, END):
 def any_default(param, nodes):
     """Some node consuming `param` has a default (or bound-inside) value for it."""
     return any(param in n.inputs and bool(n.has_default_for(param)) for n in nodes.values())
+
+
+def entry_satisfied(entrypoints, name, provided, bypassed):
+    """Every cycle parameter the entry point needs is provided (or bypassed by an internal override)."""
+    return all(p in bypassed or p in provided for p in entrypoints[name])
